@@ -875,6 +875,17 @@ def lit_text(v, typ=None):
     return str(v)
 
 
+def value_text(st):
+    """The value of an assignment as written: a literal, or (for "expr": [a, op, b]) a numerical
+    expression over two non-negative numbers in the statement's unit whose result is "value"."""
+    e = st.get("expr")
+    if not e:
+        return lit_text(st["value"])
+    a, op, b = e
+    uu = (" " + st["unit"]) if st.get("unit") else ""
+    return f'("{lit_text(a)}{uu} {op} {lit_text(b)}{uu}")'
+
+
 def type_text(st):
     t = st["type"]
     if t == "int":
@@ -939,9 +950,9 @@ def render(st):
         if st.get("declare"):
             return ind + f"{st['name']} {type_text(st)}{dims_text(st.get('dims'))}{u}{c}"
         return ind + f"{st['name']} {type_text(st)}{dims_text(st.get('dims'))} = " \
-                     f"{lit_text(st['value'])}{u}{c}"
+                     f"{value_text(st)}{u}{c}"
     if k == "mod":
-        return ind + f"{st['name']} = {lit_text(st['value'])}{u}{c}"
+        return ind + f"{st['name']} = {value_text(st)}{u}{c}"
     if k == "constant":
         return ind + "!constant"
     if k == "option":
